@@ -1,3 +1,4 @@
+import CuqiVerif.Model.QMat
 /-
   C03 model, part "glue" — the conversions `Model.gradient` (and `Model.forward`) apply to the evaluation point
   before the modelled core (`likGrad`) runs: `cuqi/model/_model.py`, `Model._2par`, `Model._2fun`, and the
@@ -57,5 +58,46 @@ def modelGradient {P F D : Type} (g : Geo P F) (gradFunc : D → F → F) (geomG
 /-- executable instance used by the driver: `par2fun p = c * p` componentwise (`c = 1`: identity geometries) -/
 def scaledGeo (c : Rat) : Geo (List Rat) (List Rat) :=
   { par2fun := fun p => p.map (c * ·), fun2par := fun f => f.map (· / c) }
+
+/-- executable instance for every geometry whose maps are affine: `par2fun p = E p + d` (`E` is `N × n`),
+    `fun2par f = Fm (f - d)` (`Fm` is `n × N`, a left inverse of `E`).  Covers a user geometry with matrix and
+    offset, `Image2D` with order C / F (`E` a permutation, function values listed row-major, `Fm = Eᵀ`),
+    `StepExpansion` / `KLExpansion` (`E` the basis, `Fm` the projection `fun2par` implements). -/
+def linGeo (E : QMat.Mat) (d : List Rat) (Fm : QMat.Mat) : Geo (List Rat) (List Rat) :=
+  { par2fun := fun p => QMat.vadd (QMat.mulVec E p) d,
+    fun2par := fun f => QMat.mulVec Fm (QMat.vsub f d) }
+
+/-! ### the refusals of `Model.gradient`, in the order the code tests them -/
+
+/-- what `domain_geometry.fun2par` does when `_2par` has to call it -/
+inductive Fun2parKind | ok | notImplemented | valueError
+  deriving DecidableEq, Repr
+
+inductive GradOutcome
+  | value (asCUQIarray : Bool)   -- a vector; wrapped as `CUQIarray(is_par=True, geometry=domain)` iff `type(direction) is CUQIarray`
+  | valueError                   -- `fun2par` raised ValueError (MappedGeometry without `imap`), or a `Samples` argument
+  | notImplemented               -- `fun2par` not implemented / no gradient function / non-identity range / non-identity domain without `gradient`
+  deriving DecidableEq, Repr
+
+def GradOutcome.toString : GradOutcome → String
+  | .value true => "value-cuqiarray" | .value false => "value-ndarray"
+  | .valueError => "ValueError" | .notImplemented => "NotImplementedError"
+
+/-- `Model.gradient`:
+    1. `_2par(wrt)` inside `try`: only if the point holds function values (`needsFun2par`) is `fun2par` called;
+       its `ValueError` / `NotImplementedError` are re-raised with the same class;
+    2. `_check_gradient_can_be_computed`: no `_gradient_func` → NotImplementedError; a `Samples` direction/wrt →
+       ValueError; range geometry not an identity geometry → NotImplementedError; domain geometry neither carrying
+       `gradient` nor an identity geometry → NotImplementedError;
+    3. otherwise a vector, wrapped iff the direction is exactly a `CUQIarray`. -/
+def gradientOutcome (needsFun2par : Bool) (f2p : Fun2parKind) (hasGradFunc samples rangeId domHasGrad domId
+    dirIsCuqi : Bool) : GradOutcome :=
+  if needsFun2par && f2p = .valueError then .valueError else
+  if needsFun2par && f2p = .notImplemented then .notImplemented else
+  if !hasGradFunc then .notImplemented else
+  if samples then .valueError else
+  if !rangeId then .notImplemented else
+  if !domHasGrad && !domId then .notImplemented else
+  .value dirIsCuqi
 
 end CuqiVerif.C03
